@@ -71,6 +71,8 @@ func (p *Parser) isStatementStartingKeyword() bool {
 			models.TokenTypeDelete, models.TokenTypeCreate, models.TokenTypeAlter,
 			models.TokenTypeDrop, models.TokenTypeWith, models.TokenTypeMerge,
 			models.TokenTypeRefresh, models.TokenTypeTruncate,
+			models.TokenTypeShow, models.TokenTypeDescribe, models.TokenTypeExplain,
+			models.TokenTypeReplace,
 			models.TokenTypeGrant, models.TokenTypeRevoke,
 			models.TokenTypeSet, models.TokenTypeBegin,
 			models.TokenTypeCommit, models.TokenTypeRollback:
